@@ -112,7 +112,7 @@ func runC15(t *testing.T, c simrt.Chooser, o Opts) *Out {
 		if msg := checkSpacing(ts, n, w, false); msg != "" {
 			out.violate("C15.too-fast", "socks", "argv %v: %s", wd.Argv, msg)
 		}
-		if cancelled && cr.Res.SigTime > 0 {
+		if cancelled && cr.Res.SigFired {
 			simrtProbe(&cr.Res, "cancel-while-throttled")
 		} else if want := s.nprobes(); len(cr.Dials) != want {
 			out.violate("C15.probe-count", "socks", "argv %v: %d probes started, %d expected", wd.Argv, len(cr.Dials), want)
